@@ -1,21 +1,23 @@
+//! C17 -- "Clamp, range test, wrap, ping-pong and angle difference obey their range laws".
+//!
+//! Every harness lives in this one module (`h::c17_*`) so that the fully qualified name needed by
+//! `cargo kani --exact --harness` is always `h::<name>`; the pieces are textually included.
+//!
+//! Conventions
+//! * wrappers (`mod w_<type>`) have a body that is ONE call into vek and carry the contract;
+//!   `c17_contract_*` harnesses prove the contract over fully symbolic arguments.
+//! * `*_panics_*` harnesses are `#[kani::should_panic]` AND end in `must_be_unreachable()`, which turns
+//!   "at least one input panics" into "EVERY input of the assumed domain panics" (see util.rs).
+//! * `*_safe_region` harnesses restrict a contract that is violated on the unchanged tree to the exact
+//!   region where vek is correct; the unrestricted twin is registered as known_failing.
+//! * `c17_vacuity_*` harnesses must FAIL (they assert false under a precondition family).
+#![allow(unused, non_snake_case)]
+use core::num::Wrapping;
 use vek::ops::*;
 
-/// Reached only on executions that did NOT panic. Triggers a non-panic failure
-fn must_be_unreachable() { let p: *const u8 = core::ptr::null(); let _x = unsafe { *p }; }
-
-#[kani::proof]
-#[kani::should_panic]
-fn c17_x_all_panic() {
-    let v: u8 = kani::any(); let lo: u8 = kani::any(); let hi: u8 = kani::any();
-    kani::assume(lo > hi);
-    let r = v.clamped(lo, hi);
-    must_be_unreachable();
-}
-#[kani::proof]
-#[kani::should_panic]
-fn c17_x_some_panic() {
-    let v: u8 = kani::any(); let lo: u8 = kani::any(); let hi: u8 = kani::any();
-    kani::assume(lo >= hi);
-    let r = v.clamped(lo, hi);
-    must_be_unreachable();
-}
+include!("util.rs");
+include!("int_clamp.rs");
+include!("int_wrap.rs");
+include!("float.rs");
+include!("vecs.rs");
+include!("vacuity.rs");
